@@ -114,6 +114,10 @@ impl ReadXml for PartialReply {
                         .map(MessageId::try_from)
                         .transpose()?;
                     _ = reader.read_to_end(end.name());
+                    // the reply is attributed by its header alone: anything wrong with the rest of
+                    // the message is for the owner of that message-id to find out, not for
+                    // whichever request happened to be reading from the transport
+                    break;
                 }
                 (_, Event::Comment(_) | Event::Decl(_)) => continue,
                 (_, Event::Eof) => break,
